@@ -31,4 +31,11 @@ var propSpecs = []PropSpec{
 		NotDecided:  "that distinct AST nodes really have distinct positions; determinism of third-party libraries",
 		Assumptions: commonAssumptions,
 	},
+	{
+		ID:          "C03",
+		Rules:       []string{"C03.W", "C03.W2", "C03.R", "C03.LOOP"},
+		Explanation: "Decides the def-use coverage of the workflow AST: every scalar field (String/[]String/Bool/Int/Float/RawYAMLValue) of every node type reachable from Workflow is (W) assigned by a parser method, (W2) by exactly one key of its section switch, and (R) read by a function reachable from RuleExpression's visitor methods and handed to an argument that flows into NewExprLexer; (LOOP) loops handing elements to the scanner have no early exit.",
+		NotDecided:  "that the diagnostic is located at that scalar and is a syntax error (position arithmetic, see C07); value-dependent behaviour of the excluded positions; conditional (path-dependent) hand-over of a parsed value to its field",
+		Assumptions: commonAssumptions,
+	},
 }
